@@ -268,7 +268,10 @@ def report_check(ctx, rng, spec, gkind, tol, max_iter, ffp):
     except Exception as ex:
         okstr, text = False, "raised " + type(ex).__name__
     ctx.check("str(result)-matches-report", okstr, feats, {"text": text[:400]}, case)
-    dur_ok = res.duration_s is not None and res.duration_s >= 0 and all((r.duration_s is None or r.duration_s >= 0) for r in res.iteration_results)
+    # every iteration record (the incomplete last one of an early stop included) carries its own non-negative duration, and together they do not
+    # exceed the duration of the whole call
+    dur_ok = res.duration_s is not None and res.duration_s >= 0 and all((r.duration_s is not None and r.duration_s >= 0) for r in res.iteration_results) and \
+        sum(float(r.duration_s) for r in res.iteration_results if r.duration_s is not None) <= float(res.duration_s) * (1 + 1e-6) + 1e-3
     ctx.check("durations-present", dur_ok, feats, None, case)
     # verbose does not alter
     g3 = M.build(spec)
